@@ -27,7 +27,7 @@ theorem bfX_zero {env : Env} {lhs : Node} (h : bfOK env lhs = true) : bfX env (b
   unfold bfX
   split <;> simp_all [xOf]
 
-theorem Sem_isAllocaCall {K : List Line → Int → Int → Prop} [CodePred K] (lhs : Node) : SemP K (isAllocaCall lhs) 0 0 0 := by
+theorem Sem_isAllocaCall {K : CodeK} [CodePred K] (lhs : Node) : SemP K (isAllocaCall lhs) 0 0 0 := by
   unfold isAllocaCall
   sem
 
@@ -324,8 +324,8 @@ theorem stmts_ok (env : Env) : (l : NodeList) → covSs env l = true → Sem (ge
 end
 
 /-- what `Sem` says, unfolded (for the statements in Props/C20.lean) -/
-theorem SemP.elim {K : List Line → Int → Int → Prop} {m : M α} (h : SemP K m r x d) {s : St} {a : α} {s' : St} {ls : List Line}
-    (hm : m s = .ok (a, s', ls)) : K ls r x ∧ s'.depth = s.depth + d := by
+theorem SemP.elim {K : CodeK} {m : M α} (h : SemP K m r x d) {s : St} {a : α} {s' : St} {ls : List Line}
+    (hm : m s = .ok (a, s', ls)) : K s.count s'.count ls r x ∧ s'.depth = s.depth + d := by
   unfold SemP at h
   exact h s a s' ls hm
 
